@@ -40,6 +40,11 @@ def make_dir(nd, spec):
     elif order == "shuf":
         rng = np.random.default_rng(int(spec.get("seed", 0)))
         d = rng.permutation(np.sort(d))
+    if spec.get("north360"):
+        # (0, 360] convention: north is labelled 360 instead of 0
+        d = np.where(d == 0.0, 360.0, d)
+        if order == "asc":
+            d = np.sort(d)
     return d
 
 
@@ -117,9 +122,11 @@ def coord_values(name, n, recipe):
     if name == "site":
         return np.arange(1, n + 1)
     if name == "lat":
-        return float(recipe.get("lat0", -30.0)) + float(recipe.get("dlat", 0.5)) * np.arange(n)
+        v = float(recipe.get("lat0", -30.0)) + float(recipe.get("dlat", 0.5)) * np.arange(n)
+        return v[::-1].copy() if recipe.get("lat_desc") else v
     if name == "lon":
-        return float(recipe.get("lon0", 150.0)) + float(recipe.get("dlon", 0.25)) * np.arange(n)
+        v = float(recipe.get("lon0", 150.0)) + float(recipe.get("dlon", 0.25)) * np.arange(n)
+        return v[::-1].copy() if recipe.get("lon_desc") else v
     return np.arange(n)
 
 
@@ -171,6 +178,13 @@ def make_dataset(recipe, winds=True):
         ds["dpt"] = (lead_names, np.round(rng.uniform(8, 400, shp), 1).astype(dtype))
     if recipe.get("scalar_coord"):
         ds = ds.assign_coords(cycle=np.datetime64("2020-01-01T00:00:00", "ns"))
+    if recipe.get("exotic_attrs"):
+        # attribute values that are containers of non-trivial objects (legal in xarray, owned by the caller)
+        import datetime as _dt
+
+        ds.attrs["history"] = [_dt.datetime(2020, 1, 2, 3, 4, 5), np.float32(0.25), "created"]
+        ds["efth"].attrs["meta"] = {"levels": np.array([0.1, 0.2]), "when": np.datetime64("2020-01-01T00:00:00"), "n": np.int64(3)}
+        ds["freq"].attrs["bounds"] = (np.float64(0.03), np.float64(0.5))
     if recipe.get("std_attrs"):
         # attributes as the library's readers put them on datasets (static table, not a library call)
         std = {
